@@ -261,6 +261,32 @@ theorem compactOps_rm (c : Cfg) (mk : Mk) (hmk : MkOk mk) (nl bs : Nat) (blocks 
       ← List.append_assoc, hfin]
   simp [cleanDisk, fileCells]
 
+def mainDisk (mf : List Cell) (temp : Option (List Cell)) : Disk := { main := some mf, temp := temp }
+
+/-- the same for an arbitrary main file (only its header is looked at by the compaction body) -/
+theorem compactOps_rm_gen (c : Cfg) (mk : Mk) (hmk : MkOk mk) (nl bs : Nat) (mf : List Cell)
+    (temp : Option (List Cell)) (hnl : ∀ t, mainNl (mainDisk mf t) = nl) (entries : List (Op × Nat)) :
+    ∃ nbs, (∀ b ∈ nbs, b.WF) ∧ entsOf nbs = entries.map (·.1) ∧
+      (mainDisk mf temp).applyAll (compactOps c mk (mainDisk mf temp) true entries bs) =
+        cleanDisk nl nbs none := by
+  have hd1 : (mainDisk mf temp).applyAll (rmTempOps (mainDisk mf temp)) = mainDisk mf none := by
+    rw [rmTemp_apply]; rfl
+  have hopen : openWriter c (mainDisk mf none) .temp nl bs =
+      some ({ path := .temp, pos := 64 + nl, nl := nl, buf := [], bufSize := 0, bs := bs }, createOps .temp nl) := by
+    simp [openWriter, mainDisk, Disk.get]
+  have hd2 : (mainDisk mf none).applyAll (createOps .temp nl) =
+      { main := some mf, temp := some (fhCells nl ++ nmCells nl) } := by
+    simp only [mainDisk]; exact createOps_apply _ nl
+  have hw : WInv { main := some mf, temp := some (fhCells nl ++ nmCells nl) }
+      { path := .temp, pos := 64 + nl, nl := nl, buf := [], bufSize := 0, bs := bs } (fhCells nl ++ nmCells nl) :=
+    ⟨rfl, by simp, HdrOk_file nl _⟩
+  obtain ⟨nbs, hwf, hents, hfin⟩ := compact_tail c mk hmk _ _ _ hw rfl rfl entries
+  refine ⟨nbs, hwf, hents, ?_⟩
+  simp only [compactOps, if_true, hd1, hnl, hopen]
+  rw [List.append_assoc, List.append_assoc, List.append_assoc, Disk.applyAll_append, hd1, Disk.applyAll_append, hd2,
+      ← List.append_assoc, hfin]
+  simp [cleanDisk, fileCells]
+
 /-- temp *not* removed and a parseable file is lying there: the writer appends to it, and the
     rename installs `stale blocks ++ new blocks` as the main file -/
 theorem compactOps_stale (c : Cfg) (hc : c.truncatesTornTail = false) (mk : Mk) (hmk : MkOk mk) (nl bs : Nat)
